@@ -150,11 +150,12 @@ class DriverGen(object):
         return "template <class V> static void %s(const std::string &p, V v, int depth);" % self.obs_names[id(st)]
 
     def param_cast(self, ptype, idx):
+        idx = str(idx)
         if ptype.kind == "enum":
-            return "static_cast<%s>(std::stoll(tok[%d]))" % (self.enum_cpp_name(ptype), idx)
+            return "static_cast<%s>(std::stoll(tok[%s]))" % (self.enum_cpp_name(ptype), idx)
         if ptype.kind == "Int":
-            return "std::stoll(tok[%d])" % idx
-        return "std::stoull(tok[%d])" % idx
+            return "std::stoll(tok[%s])" % idx
+        return "std::stoull(tok[%s])" % idx
 
     def enum_cpp_name(self, ptype):
         return ptype.cpp_name
@@ -187,6 +188,26 @@ class DriverGen(object):
         L.append("        default: break;")
         L.append("      }")
         L.append("      free(buf);")
+        L.append("    }")
+        L.append("    if (tok[0] == \"S\" || tok[0] == \"U\") {")
+        L.append("      // S <struct> <hex> [params]: text output with partial output allowed, read back into a copy, iterate arrays")
+        L.append("      // U <struct> <hex> <hex-of-text> [params]: UpdateFromText with an arbitrary text")
+        L.append("      int si = std::stoi(tok[1]); std::vector<unsigned char> b = unhex(tok[2]);")
+        L.append("      unsigned char *buf = new unsigned char[b.size()]; if (!b.empty()) std::memcpy(buf, b.data(), b.size());")
+        L.append("      unsigned char *cpy = new unsigned char[b.size()]; if (!b.empty()) std::memcpy(cpy, b.data(), b.size());")
+        L.append("      std::string utext; int pbase = 3; if (tok[0] == \"U\") { std::vector<unsigned char> t = unhex(tok[3]); utext.assign(t.begin(), t.end()); pbase = 4; }")
+        L.append("      switch (si) {")
+        for i, st in enumerate(self.top_structs()):
+            args = "".join(self.param_cast(pt, "pbase + %d" % k) + ", " for k, (pn, pt) in enumerate(st.params))
+            mk = "%s::Make%sView" % (cpp_ns(self.m), st.name)
+            L.append("        case %d: { auto v = %s(%sbuf, b.size()); auto w = %s(%scpy, b.size());" % (i, mk, args, mk, args))
+            L.append("          if (tok[0] == \"U\") { bool r = ::emboss::UpdateFromText(w, utext); P(\"u\", r); P(\"okW\", w.Ok()); }")
+            L.append("          else { for (int o = 0; o < 4; ++o) { auto opts = ::emboss::TextOutputOptions().WithAllowPartialOutput(true).Multiline(o & 1).WithComments(o & 2).WithIndent(\"  \").WithNumericBase(o == 3 ? 16 : 10).WithDigitGrouping(o == 2);")
+            L.append("              std::string s = ::emboss::WriteToString(v, opts); P(\"len\", std::to_string(s.size())); bool r = ::emboss::UpdateFromText(w, s); P(\"u\", r); } P(\"okW\", w.Ok()); }")
+            L.append("          break; }")
+        L.append("        default: break;")
+        L.append("      }")
+        L.append("      delete[] buf; delete[] cpy;")
         L.append("    }")
         L.append(body_extra)
         L.append("    std::printf(\"END\\n\"); std::fflush(stdout);")
